@@ -289,41 +289,78 @@ Definition list_narop (opn : arg -> list arg -> M arg) (a : arg) (extra : list a
 (* class ids are assigned by the harness; the operator name is part of the id. *)
 Definition is_unit (a : arg) : bool := match a with Scalar (U _ _) => true | _ => false end.
 
-(* x op y on two non-sequence Python objects, [cls] = BinaryOpUGen with this operator at audio
-   rate, [num] = the Python arithmetic on two ints.  UGen._compose_binop/_rcompose_binop ->
-   BinaryOpUGen.new(sel, a, b) -> _multi_new('audio', sel, a, b); numbers 0, 1, -1 trigger the
-   _new1 shortcuts (Ctor.v, property C01) and are excluded by the callers of this model. *)
-Definition scalar_binop (base : Z) (num : Z -> Z -> Z) (x y : arg) : M arg :=
+(* The classes the arithmetic creates: BinaryOpUGen '+', '-', '*', UnaryOpUGen 'neg', MulAdd
+   (base ids, see "calculation rates") *)
+Record obases := mkBases { b_add : Z; b_sub : Z; b_mul : Z; b_neg : Z; b_muladd : Z }.
+Inductive bop := OAdd | OSub | OMul.
+Definition bop_base (B : obases) (o : bop) : Z :=
+  match o with OAdd => b_add B | OSub => b_sub B | OMul => b_mul B end.
+Definition bop_num (o : bop) : Z -> Z -> Z :=
+  match o with OAdd => Z.add | OSub => Z.sub | OMul => Z.mul end.
+Definition num_of (a : arg) : option Z := match a with Scalar (K z) => Some z | _ => None end.
+Definition is_num (a : arg) (z : Z) : bool :=
+  match num_of a with Some v => Z.eqb v z | None => false end.
+(* -x for a UGen x: UnaryOpUGen.new('neg', x); for a number Python's negation *)
+Definition neg_of (B : obases) (x : arg) : M arg :=
+  match x with
+  | Scalar (K a) => ret (Scalar (K (- a)))
+  | Scalar (Str _) => raise TypeError
+  | _ => multi_new (new1_rated (b_neg B) 1 unop_ratef) [x]
+  end.
+(* BinaryOpUGen._new1(rate, selector, a, b), INCLUDING its shortcuts for the numbers 0, 1, -1
+   (ints, floats, -0.0 and bools alike: isinstance(x, (int, float)) and ==):
+     '*': a == 0 -> 0.0; b == 0 -> 0.0; a == 1 -> b; a == -1 -> -b; b == 1 -> a; b == -1 -> -a
+     '+': a == 0 -> b; b == 0 -> a          '-': a == 0 -> -b; b == 0 -> a
+   otherwise one unit whose rate is _determine_rate(a, b). *)
+Definition binop_new1 (B : obases) (o : bop) (args : list arg) : M arg :=
+  match args with
+  | [a; b] =>
+    match o with
+    | OMul =>
+      if is_num a 0 || is_num b 0 then ret (Scalar (K 0%Z))
+      else if is_num a 1 then ret b
+      else if is_num a (-1) then neg_of B b
+      else if is_num b 1 then ret a
+      else if is_num b (-1) then neg_of B a
+      else new1_rated (b_mul B) 1 binop_ratef [a; b]
+    | OAdd =>
+      if is_num a 0 then ret b else if is_num b 0 then ret a
+      else new1_rated (b_add B) 1 binop_ratef [a; b]
+    | OSub =>
+      if is_num a 0 then neg_of B b else if is_num b 0 then ret a
+      else new1_rated (b_sub B) 1 binop_ratef [a; b]
+    end
+  | _ => raise TypeError
+  end.
+(* x op y on two non-sequence Python objects: numbers: Python arithmetic; a UGen on either side:
+   UGen._compose_binop/_rcompose_binop -> BinaryOpUGen.new(sel, a, b) -> _multi_new('audio', sel, a, b),
+   operand order kept *)
+Definition scalar_binop (B : obases) (o : bop) (x y : arg) : M arg :=
   match x, y with
-  | Scalar (K a), Scalar (K b) => ret (Scalar (K (num a b)))
+  | Scalar (K a), Scalar (K b) => ret (Scalar (K (bop_num o a b)))
   | Scalar (Str _), _ | _, Scalar (Str _) => raise TypeError
-  | _, _ => multi_new (new1_rated base 1 binop_ratef) [x; y]
+  | _, _ => multi_new (binop_new1 B o) [x; y]
   end.
 (* UGen op y  (y any tree): invalid (empty) sequences raise TypeError, otherwise BinaryOpUGen.new;
    the rate of every created unit is _determine_rate of ITS two inputs *)
-Definition ugen_binop (base : Z) (x y : arg) : M arg :=
+Definition ugen_binop (B : obases) (o : bop) (x y : arg) : M arg :=
   match y with
   | Lst [] | Tuple [] | Scalar (Str _) => raise TypeError
-  | _ => multi_new (new1_rated base 1 binop_ratef) [x; y]
+  | _ => multi_new (binop_new1 B o) [x; y]
   end.
-Definition ugen_rbinop (base : Z) (y x : arg) : M arg :=      (* y op UGen *)
+Definition ugen_rbinop (B : obases) (o : bop) (y x : arg) : M arg :=      (* y op UGen *)
   match y with
   | Lst [] | Tuple [] | Scalar (Str _) => raise TypeError
-  | _ => multi_new (new1_rated base 1 binop_ratef) [y; x]
+  | _ => multi_new (binop_new1 B o) [y; x]
   end.
-Definition scalar_unop (base : Z) (num : Z -> Z) (x : arg) : M arg :=
-  match x with
-  | Scalar (K a) => ret (Scalar (K (num a)))
-  | Scalar (Str _) => raise TypeError
-  | _ => multi_new (new1_rated base 1 unop_ratef) [x]
-  end.
+Definition scalar_unop (B : obases) (x : arg) : M arg := neg_of B x.
 (* AbstractSequence._compose_binop / _rcompose_binop / _compose_unop on a ChannelList *)
-Definition cl_binop (base : Z) (num : Z -> Z -> Z) (self other : arg) : M arg :=
-  list_binop (scalar_binop base num) self other KList.
-Definition cl_rbinop (base : Z) (num : Z -> Z -> Z) (other self : arg) : M arg :=
-  list_binop (scalar_binop base num) other self KList.
-Definition cl_unop (base : Z) (num : Z -> Z) (self : arg) : M arg :=
-  list_unop (scalar_unop base num) self KList.
+Definition cl_binop (B : obases) (o : bop) (self other : arg) : M arg :=
+  list_binop (scalar_binop B o) self other KList.
+Definition cl_rbinop (B : obases) (o : bop) (other self : arg) : M arg :=
+  list_binop (scalar_binop B o) other self KList.
+Definition cl_unop (B : obases) (self : arg) : M arg :=
+  list_unop (scalar_unop B) self KList.
 
 (* ---- MulAdd ------------------------------------------------------------------------------ *)
 (* MulAdd._can_be_muladd(input, mul, add) *)
@@ -340,33 +377,40 @@ Definition can_be_muladd (st : state) (i m a : arg) : option bool :=
   | Some _ => Some false
   | None => None
   end.
-(* MulAdd._new1(rate, input, mul, add) without the shortcuts for the constants 0, 1, -1 (C01;
-   excluded by the callers): a MulAdd unit on (input, mul, add) or on (mul, input, add) when the
-   rates allow it, otherwise (input * mul) + add.  The [rate] argument (computed ONCE by
-   MulAdd.new from the complete argument lists) is ignored: _init_ugen sets the unit's rate from
-   its own three inputs.  [bm ba] = BinaryOpUGen '*' and '+'. *)
-Definition muladd_new1 (base bm ba : Z) (args : list arg) : M arg :=
+(* MulAdd._new1(rate, input, mul, add), complete for a UGen input:
+     mul == 0 -> add;  mul == 1 and add == 0 -> input;  mul == -1 and add == 0 -> -input;
+     add == 0 -> input * mul;  mul == -1 -> add - input;  mul == 1 -> input + add;
+   then a MulAdd unit on (input, mul, add) or on (mul, input, add) when the rates allow it,
+   otherwise (input * mul) + add.  The [rate] argument (computed ONCE by MulAdd.new from the
+   complete argument lists) is ignored: _init_ugen sets the unit's rate from its own inputs. *)
+Definition muladd_new1 (B : obases) (args : list arg) : M arg :=
   match args with
   | [input; mul; add] =>
-    fun st =>
-      match can_be_muladd st input mul add with
-      | None => Err IndexError
-      | Some true => new1_rated base 1 inputs_ratef [input; mul; add] st
-      | Some false =>
-        match can_be_muladd st mul input add with
+    match input with
+    | Scalar (U _ _) =>
+      if is_num mul 0 then ret add
+      else if is_num mul 1 && is_num add 0 then ret input
+      else if is_num mul (-1) && is_num add 0 then neg_of B input
+      else if is_num add 0 then ugen_binop B OMul input mul
+      else if is_num mul (-1) then ugen_rbinop B OSub add input
+      else if is_num mul 1 then ugen_binop B OAdd input add
+      else fun st =>
+        match can_be_muladd st input mul add with
         | None => Err IndexError
-        | Some true => new1_rated base 1 inputs_ratef [mul; input; add] st
+        | Some true => new1_rated (b_muladd B) 1 inputs_ratef [input; mul; add] st
         | Some false =>
-          match input with
-          | Scalar (U _ _) => bind (ugen_binop bm input mul) (fun x => ugen_binop ba x add) st
-          | _ => Err NotModelled
+          match can_be_muladd st mul input add with
+          | None => Err IndexError
+          | Some true => new1_rated (b_muladd B) 1 inputs_ratef [mul; input; add] st
+          | Some false => bind (ugen_binop B OMul input mul) (fun x => ugen_binop B OAdd x add) st
           end
         end
-      end
+    | _ => raise NotModelled
+    end
   | _ => raise TypeError
   end.
-Definition muladd_new (base bm ba : Z) (input mul add : arg) : M arg :=
-  multi_new (muladd_new1 base bm ba) [input; mul; add].
+Definition muladd_new (B : obases) (input mul add : arg) : M arg :=
+  multi_new (muladd_new1 B) [input; mul; add].
 
 (* ---- ChannelList convenience methods ------------------------------------ *)
 (* UGen.<method>( *args) for the methods that go straight to a constructor:
@@ -376,7 +420,7 @@ Inductive meth :=
   | MDirect (base : Z)                 (* LagUD, Slew: ar kr *)
   | MLag (base : Z)                    (* Lag, Lag2, Lag3: ar kr, input returned for time 0 *)
   | MClip (base : Z)                   (* Clip, Fold, Wrap, ModDif: ar kr ir *)
-  | MRange (base bm ba : Z).           (* range(lo, hi) of a bipolar unit: MulAdd *)
+  | MRange (B : obases).               (* range(lo, hi) of a bipolar unit: MulAdd *)
 (* the constructor is selected by the RECEIVER's rate (Cls._method_selector_for_rate(self.rate)):
    the rate of each channel's unit is the rate of that channel's receiver element *)
 Definition ugen_method (m : meth) (x : arg) (args : list arg) : M arg :=
@@ -400,12 +444,12 @@ Definition ugen_method (m : meth) (x : arg) (args : list arg) : M arg :=
                          | _ => multi_new (new1_plain (with_rate b r) 1) (x :: args) st
                          end
                   end
-      | MRange b bm ba =>
+      | MRange B =>
         (* mul = (hi - lo) * 0.5; add = mul + lo; MulAdd.new(self, mul, add) *)
         match args with
         | [Scalar (K lo); Scalar (K hi)] =>
           if Z.even (hi - lo)
-          then muladd_new b bm ba x (Scalar (K ((hi - lo) / 2))) (Scalar (K ((hi - lo) / 2 + lo))) st
+          then muladd_new B x (Scalar (K ((hi - lo) / 2))) (Scalar (K ((hi - lo) / 2 + lo))) st
           else Err NotModelled
         | _ => Err NotModelled
         end
@@ -443,7 +487,7 @@ End McPerform.
 Definition leaf_method (m : meth) (x : arg) (rest : list arg) : M arg :=
   match x with
   | Scalar (U u c) => ugen_method m (Scalar (U u c)) rest
-  | Scalar (K z) => match m with MClip _ | MRange _ _ _ => raise NotModelled | _ => ret (Scalar (K z)) end
+  | Scalar (K z) => match m with MClip _ | MRange _ => raise NotModelled | _ => ret (Scalar (K z)) end
   | _ => raise AttributeError
   end.
 Definition mc_perform (m : meth) (self : list arg) (args : list arg) : M arg :=
@@ -452,19 +496,10 @@ Definition mc_perform (m : meth) (self : list arg) (args : list arg) : M arg :=
 (* ---- ChannelList.dup / sum / poll / dpoll ------------------------------------------- *)
 (* dup(n): ChannelList([self] * n): no unit is created *)
 Definition cl_dup (self : list arg) (n : nat) : M arg := ret (Lst (repeat (Lst self) n)).
-(* x + y on two non-sequences INCLUDING BinaryOpUGen._new1's shortcuts for '+'
-   (a == 0 -> b, b == 0 -> a), which sum() always meets because it starts from 0 *)
-Definition add0 (base : Z) (x y : arg) : M arg :=
-  match x, y with
-  | Scalar (K a), Scalar (K b) => ret (Scalar (K (a + b)))
-  | Scalar (Str _), _ | _, Scalar (Str _) => raise TypeError
-  | Scalar (K 0%Z), _ => ret y
-  | _, Scalar (K 0%Z) => ret x
-  | _, _ => multi_new (new1_rated base 1 binop_ratef) [x; y]
-  end.
-(* sum(): list_sum(self, type(self)):  res = 0; for item in lst: res = list_binop(add, res, item, t) *)
-Definition cl_sum (cls : Z) (self : list arg) : M arg :=
-  fold_left (fun res item => bind res (fun r => list_binop (add0 cls) r item KList)) self
+(* sum(): list_sum(self, type(self)):  res = 0; for item in lst: res = list_binop(add, res, item, t)
+   (the first addition always meets BinaryOpUGen's 0 + x shortcut) *)
+Definition cl_sum (B : obases) (self : list arg) : M arg :=
+  fold_left (fun res item => bind res (fun r => list_binop (scalar_binop B OAdd) r item KList)) self
             (ret (Scalar (K 0%Z))).
 (* Poll._new1(rate, trig, input, label, trig_id): a numeric trig becomes Impulse.<rate>(trig, 0)
    (one more unit, created first); the unit's inputs are trig, input, trig_id, len(label), *label,
@@ -523,13 +558,13 @@ Definition cl_dpoll (dpoll : Z) (self : list arg) (label run tid : arg) (deflabe
   multi_new (dpoll_new1 dpoll) [Lst self; label'; run; tid].
 
 (* ChannelList.madd: return MulAdd.new(self, mul, add)   (since fix 925c2da; sclang's Array.madd) *)
-Definition cl_madd (base bm ba : Z) (self : list arg) (mul add : arg) : M arg :=
-  muladd_new base bm ba (Lst self) mul add.
+Definition cl_madd (B : obases) (self : list arg) (mul add : arg) : M arg :=
+  muladd_new B (Lst self) mul add.
 (* ChannelList.madd as written before that fix:
      return type(self)(MulAdd.new(i, mul, add) for i in self)
    mul and add are NOT zipped with self: every channel is expanded against the whole of them. *)
-Definition cl_madd_unpatched (base bm ba : Z) (self : list arg) (mul add : arg) : M arg :=
-  bind (mapM (fun i => muladd_new base bm ba i mul add) self) (fun r => ret (Lst r)).
+Definition cl_madd_unpatched (B : obases) (self : list arg) (mul add : arg) : M arg :=
+  bind (mapM (fun i => muladd_new B i mul add) self) (fun r => ret (Lst r)).
 
 (* ---- Out ------------------------------------------------------------------ *)
 (* _replace_zeroes_with_silence(lst): silence = DC.ar(0) is created on EVERY call (also the
